@@ -373,3 +373,428 @@ Proof.
   destruct (program_of_forest text fr) as [[q|]| | | |]; try discriminate H.
   injection H as <- <-. exact Hs.
 Qed.
+
+(* ================================================================== Part 2: top-level rule names (any grammar) *)
+Local Open Scope list_scope.
+Section Tops.
+  Variable R : Type.
+  Variable G : grammar R.
+  Notation st := (st R).
+  Notation res := (res R).
+
+  Definition troot (t : tree R) : R := match t with Node r _ _ _ => r end.
+  Definition silentb (r : R) : bool := match rd_mod (g_def G r) with MSilent => true | _ => false end.
+
+  (* Q: a quiet set (PegQuiet) containing the implicit-skip rules and every silent trivia rule;
+     S: a specification of the top-level pairs of the other silent rules, closed under unfolding *)
+  Variable Q : R -> bool.
+  Hypothesis Q_silent : forall r, Q r = true -> rd_mod (g_def G r) = MSilent.
+  Hypothesis Q_closed : forall r, Q r = true -> forallb Q (idents R (rd_body (g_def G r))) = true.
+  Hypothesis Q_ws : forall w, g_ws G = Some w -> Q w = true.
+  Hypothesis Q_comment : forall c, g_comment G = Some c -> Q c = true.
+  Hypothesis Q_trivia : forall r, silentb r = true -> rd_trivia (g_def G r) = true -> Q r = true.
+  Variable S : R -> list R -> Prop.
+
+  Definition star (P : list R -> Prop) (l : list R) : Prop := exists ls, l = concat ls /\ Forall P ls.
+
+  Fixpoint tops (e : expr R) (l : list R) : Prop :=
+    match e with
+    | Ident r => if Q r then l = [] else if silentb r then S r l else l = [r]
+    | Seq a b => exists l1 l2, l = l1 ++ l2 /\ tops a l1 /\ tops b l2
+    | Choice a b => tops a l \/ tops b l
+    | Opt x => l = [] \/ tops x l
+    | Rep x => star (tops x) l
+    | Push x | RestoreOnErr x => tops x l
+    | _ => l = []
+    end.
+
+  Hypothesis S_sound : forall r, silentb r = true -> Q r = false ->
+    forall l, tops (rd_body (g_def G r)) l -> S r l.
+
+  Definition adds (P : list R -> Prop) (s : st) (r : res) : Prop :=
+    match r with
+    | Ok s' => exists new, out s' = new ++ out s /\ P (map troot (rev new))
+    | Fail s' => out s' = out s
+    | _ => True
+    end.
+  Definition adds_fun (P : list R -> Prop) (g : st -> res) : Prop := forall s, adds P s (g s).
+  Definition nothing (l : list R) : Prop := l = [].
+
+  Lemma adds_quiet : forall s r, quiet R s r -> adds nothing s r.
+  Proof. intros s r H. destruct r; simpl in *; auto. exists []. split; [exact H|reflexivity]. Qed.
+  Lemma adds_weaken : forall (P P' : list R -> Prop) s r, (forall l, P l -> P' l) -> adds P s r -> adds P' s r.
+  Proof. intros P P' s r H Ha. destruct r; simpl in *; auto. destruct Ha as (n & O & Hp). exists n. auto. Qed.
+
+  Definition cat (P1 P2 : list R -> Prop) (l : list R) : Prop := exists l1 l2, l = l1 ++ l2 /\ P1 l1 /\ P2 l2.
+
+  (* bind: a failure after progress is unconstrained (the enclosing `sequence` resets [out]) *)
+  Definition addsW (P : list R -> Prop) (s : st) (r : res) : Prop :=
+    match r with Ok s' => adds P s (Ok s') | _ => True end.
+  Lemma adds_bind : forall P1 P2 s r f, adds P1 s r -> adds_fun P2 f -> addsW (cat P1 P2) s (bind r f).
+  Proof.
+    intros P1 P2 s r f Hr Hf. destruct r as [s0|s0| |]; simpl; auto.
+    pose proof (Hf s0) as H. destruct (f s0) as [s1|s1| |]; simpl in *; auto.
+    destruct Hr as (n1 & O1 & H1). destruct H as (n2 & O2 & H2).
+    exists (n2 ++ n1). rewrite O2, O1, app_assoc. split; [reflexivity|].
+    rewrite rev_app_distr, map_app. exists (map troot (rev n1)), (map troot (rev n2)). auto.
+  Qed.
+  Lemma adds_sequence : forall P s r, addsW P s r -> adds P s (sequence s r).
+  Proof. intros P s r H. destruct r; simpl in *; auto. Qed.
+  Lemma adds_optional : forall P s r, adds P s r -> adds (fun l => l = [] \/ P l) s (optional r).
+  Proof.
+    intros P s r H. destruct r; simpl in *; auto.
+    - destruct H as (n & O & Hp). exists n. auto.
+    - exists []. split; [exact H|left; reflexivity].
+  Qed.
+
+  Lemma star_nil : forall P, star P [].
+  Proof. intro P. exists []. split; [reflexivity|constructor]. Qed.
+  Lemma star_cons : forall (P : list R -> Prop) l1 l2, P l1 -> star P l2 -> star P (l1 ++ l2).
+  Proof. intros P l1 l2 H (ls & E & F). exists (l1 :: ls). split; [simpl; rewrite E; reflexivity|constructor; assumption]. Qed.
+  Lemma star_nothing : forall l, star nothing l -> l = [].
+  Proof.
+    intros l (ls & E & F). subst l. induction F as [|x ls Hx _ IH]; [reflexivity|].
+    simpl. rewrite Hx, IH. reflexivity.
+  Qed.
+
+  Lemma adds_repeat : forall P n g, adds_fun P g -> adds_fun (star P) (repeat_loop n g).
+  Proof.
+    intros P n g Hg. induction n as [|n IH]; intro s; simpl; [exact I|].
+    pose proof (Hg s) as H. destruct (g s) as [s0|s0| |] eqn:E; simpl in *; auto.
+    - pose proof (IH s0) as H2. destruct (repeat_loop n g s0) as [s1|s1| |] eqn:E2; simpl in *; auto.
+      + destruct H as (n1 & O1 & H1). destruct H2 as (n2 & O2 & Hs).
+        exists (n2 ++ n1). rewrite O2, O1, app_assoc. split; [reflexivity|].
+        rewrite rev_app_distr, map_app. apply star_cons; assumption.
+      + exfalso. eapply repeat_never_fails. exact E2.
+    - exists []. split; [exact H|apply star_nil].
+  Qed.
+
+  Definition tops_runner (rf : runner R) : Prop :=
+    forall m a e, a <> Atomic -> adds_fun (tops e) (rf m a false e).
+
+  Lemma emits_true : forall a, a <> Atomic -> emits a false = true.
+  Proof. intros a H. unfold emits. destruct a; try reflexivity. congruence. Qed.
+
+  Lemma adds_rule_wrap : forall r a f, a <> Atomic -> (forall s, match f s with Fail s' => out s' = out s | _ => True end) ->
+    adds_fun (fun l => l = [r]) (rule_wrap r a false f).
+  Proof.
+    intros r a f Ha Hf s. unfold rule_wrap. rewrite (emits_true a Ha).
+    destruct (f (set_out s [])) as [s1|s1| |] eqn:E; simpl; auto.
+    exists [Node r (pos s) (pos s1) (rev (out s1))]. split; reflexivity.
+  Qed.
+
+  Theorem run_tops : forall f, tops_runner (run G f).
+  Proof.
+    induction f as [|f IH]; intros m a e Ha s; [exact I|].
+    assert (Hfail : forall m a la e s s', run G f m a la e s = Fail s' -> out s' = out s).
+    { intros m0 a0 la0 e0 s0 s' H. apply (run_fail_unchanged R G) in H. apply H. }
+    assert (Hq : quiet_runner R Q (run G f)) by (apply run_quiet; assumption).
+    assert (Hskip : adds_fun nothing (skip_with G f (call_with G (run G f)) a false)).
+    { intro s0. apply adds_quiet. apply (quiet_skip R G Q Q_silent Q_closed Q_ws Q_comment f _ Hq). }
+    rewrite run_S. cbv zeta.
+    destruct e as [x|x|lo hi|r|b|x|x|x y|x y|x|x|ss|x|x]; cbn [tops].
+    - apply adds_quiet. apply quiet_match_string.
+    - apply adds_quiet. apply quiet_match_insensitive.
+    - apply adds_quiet. apply quiet_match_range.
+    - (* Ident *)
+      destruct (Q r) eqn:Eq.
+      { apply adds_quiet. apply (quiet_call R G Q Q_silent Q_closed _ Hq). exact Eq. }
+      unfold silentb. unfold call_with.
+      destruct (rd_mod (g_def G r)) eqn:Em.
+      + apply (adds_rule_wrap r a); [exact Ha|]. intro s0.
+        match goal with |- match ?X with _ => _ end => destruct X eqn:E end; auto. eapply Hfail; exact E.
+      + (* silent, not quiet: not a trivia rule; its body runs in the caller's atomicity *)
+        destruct (rd_trivia (g_def G r)) eqn:Et.
+        { assert (Hs : silentb r = true) by (unfold silentb; rewrite Em; reflexivity).
+          rewrite (Q_trivia r Hs Et) in Eq. discriminate Eq. }
+        cbn [orb andb]. eapply adds_weaken; [|apply (IH false a _ Ha)].
+        apply S_sound; [unfold silentb; rewrite Em; reflexivity|exact Eq].
+      + apply (adds_rule_wrap r a); [exact Ha|]. intro s0.
+        match goal with |- match ?X with _ => _ end => destruct X eqn:E end; auto. eapply Hfail; exact E.
+      + apply (adds_rule_wrap r CompoundAtomic); [discriminate|]. intro s0.
+        match goal with |- match ?X with _ => _ end => destruct X eqn:E end; auto. eapply Hfail; exact E.
+      + apply (adds_rule_wrap r NonAtomic); [discriminate|]. intro s0.
+        match goal with |- match ?X with _ => _ end => destruct X eqn:E end; auto. eapply Hfail; exact E.
+    - apply adds_quiet. apply quiet_builtin.
+    - (* PosPred *)
+      unfold lookahead. pose proof (run_good R G f m a true x (set_stk s (stack_snapshot (stk s)))) as Hg.
+      destruct (run G f m a true x (set_stk s (stack_snapshot (stk s)))) as [s1|s1| |]; simpl in *; auto.
+      + destruct Hg as (_ & n & O & _ & L). rewrite (L eq_refl) in O. exists []. split; [exact O|reflexivity].
+      + apply Hg.
+    - (* NegPred *)
+      unfold lookahead. pose proof (run_good R G f m a true x (set_stk s (stack_snapshot (stk s)))) as Hg.
+      destruct (run G f m a true x (set_stk s (stack_snapshot (stk s)))) as [s1|s1| |]; simpl in *; auto.
+      + destruct Hg as (_ & n & O & _ & L). rewrite (L eq_refl) in O. exact O.
+      + exists []. split; [apply Hg|reflexivity].
+    - (* Seq *)
+      destruct m.
+      + apply adds_sequence. eapply adds_bind; [apply (IH true a x Ha)|apply (IH true a y Ha)].
+      + apply adds_sequence.
+        pose proof (adds_bind _ _ s _ _ (IH false a x Ha s) Hskip) as H1.
+        destruct (bind (run G f false a false x s) (skip_with G f (call_with G (run G f)) a false)) as [s1|s1| |] eqn:E1;
+          simpl; auto.
+        pose proof (adds_bind _ _ s (Ok s1) _ H1 (IH false a y Ha)) as H2. cbn [bind] in H2.
+        destruct (run G f false a false y s1) as [s2|s2| |]; simpl in *; auto.
+        destruct H2 as (n & O & l1 & l2 & E & (l3 & l4 & E3 & H3 & H4) & H5). exists n. split; [exact O|].
+        unfold nothing in H4. subst l4. rewrite app_nil_r in E3. subst l3. exists l1, l2. auto.
+    - (* Choice *)
+      pose proof (IH m a x Ha s) as H1. destruct (run G f m a false x s) as [s1|s1| |] eqn:E1; simpl in *; auto.
+      + destruct H1 as (n & O & H1). exists n. auto.
+      + pose proof (IH m a y Ha s1) as H2. destruct (run G f m a false y s1) as [s2|s2| |]; simpl in *; auto.
+        * destruct H2 as (n & O & H2). exists n. rewrite <- H1. auto.
+        * congruence.
+    - (* Opt *) apply adds_optional. apply (IH m a x Ha).
+    - (* Rep *)
+      destruct m.
+      + apply adds_repeat. apply (IH true a x Ha).
+      + apply adds_sequence.
+        assert (Hg : adds_fun (tops x) (fun s1 => sequence s1 (bind (skip_with G f (call_with G (run G f)) a false s1)
+                                                                 (run G f false a false x)))).
+        { intro s1. apply adds_sequence.
+          pose proof (adds_bind _ _ s1 _ _ (Hskip s1) (IH false a x Ha)) as H.
+          destruct (bind (skip_with G f (call_with G (run G f)) a false s1) (run G f false a false x)) as [s2|s2| |];
+            simpl in *; auto.
+          destruct H as (n & O & l1 & l2 & E & H1 & H2). exists n. split; [exact O|].
+          unfold nothing in H1. subst l1. simpl in E. subst l2. exact H2. }
+        pose proof (IH false a x Ha s) as H1.
+        destruct (run G f false a false x s) as [s1|s1| |] eqn:E1; cbn [bind optional]; simpl; auto.
+        * pose proof (adds_repeat _ f _ Hg s1) as H2.
+          destruct (repeat_loop f _ s1) as [s2|s2| |] eqn:E2; simpl in *; auto.
+          -- destruct H1 as (n1 & O1 & H1). destruct H2 as (n2 & O2 & H2).
+             exists (n2 ++ n1). rewrite O2, O1, app_assoc. split; [reflexivity|].
+             rewrite rev_app_distr, map_app. apply star_cons; assumption.
+          -- exfalso. eapply repeat_never_fails. exact E2.
+        * exists []. split; [exact H1|apply star_nil].
+    - destruct (skip_until_pos ss (pos s) (rest s)) as [p r]. simpl. exists []. split; reflexivity.
+    - (* Push *) unfold do_push. pose proof (IH m a x Ha s) as H. destruct (run G f m a false x s); simpl in *; auto.
+    - (* RestoreOnErr *)
+      unfold restore_on_err. pose proof (IH m a x Ha (set_stk s (stack_snapshot (stk s)))) as H.
+      destruct (run G f m a false x (set_stk s (stack_snapshot (stk s)))); simpl in *; auto.
+  Qed.
+End Tops.
+
+(* ---------------------------------------------------------------- computing with [tops] *)
+Section TopsEnum.
+  Variable R : Type.
+  Variable G : grammar R.
+  Variable Q : R -> bool.
+  (* finite specification of the silent, non-quiet rules: [Senum r = Some ls] = the top-level names are one of ls *)
+  Variable Senum : R -> option (list (list R)).
+  Variable all_rules : list R.
+  Hypothesis all_rules_all : forall r, In r all_rules.
+  Definition S_of (r : R) (l : list R) : Prop := match Senum r with Some ls => In l ls | None => True end.
+  Definition Snames (r : R) : list R := match Senum r with Some ls => concat ls | None => all_rules end.
+  Notation tops := (tops R G Q S_of).
+  Notation silentb := (silentb R G).
+
+  Definition is_nil (l : list R) : bool := match l with [] => true | _ => false end.
+  Fixpoint enum (e : expr R) : option (list (list R)) :=
+    match e with
+    | Ident r => if Q r then Some [[]] else if silentb r then Senum r else Some [[r]]
+    | Seq a b =>
+        match enum a, enum b with
+        | Some la, Some lb => Some (flat_map (fun x => map (app x) lb) la)
+        | _, _ => None
+        end
+    | Choice a b => match enum a, enum b with Some la, Some lb => Some (la ++ lb) | _, _ => None end
+    | Opt x => match enum x with Some lx => Some ([] :: lx) | None => None end
+    | Rep x => match enum x with Some lx => if forallb is_nil lx then Some [[]] else None | None => None end
+    | Push x | RestoreOnErr x => enum x
+    | _ => Some [[]]
+    end.
+
+  Lemma star_all_nil : forall (P : list R -> Prop) l, (forall x, P x -> x = []) -> star R P l -> l = [].
+  Proof.
+    intros P l H (ls & E & F). subst l. induction F as [|x ls Hx _ IH]; [reflexivity|].
+    simpl. rewrite (H x Hx), IH. reflexivity.
+  Qed.
+
+  Lemma tops_enum : forall e l ls, tops e l -> enum e = Some ls -> In l ls.
+  Proof.
+    induction e as [x|x|lo hi|r|b|x IHx|x IHx|e1 IHe1 e2 IHe2|e1 IHe1 e2 IHe2|e IHe|e IHe|ss|e IHe|e IHe]; intros l ls H E; cbn [PegShape.tops enum] in *;
+      try (inversion E; subst ls; left; symmetry; exact H).
+    - (* Ident *)
+      destruct (Q r); [inversion E; subst ls; left; symmetry; exact H|].
+      destruct (silentb r).
+      + unfold S_of in H. rewrite E in H. exact H.
+      + inversion E; subst ls. left. symmetry. exact H.
+    - (* Seq *)
+      destruct H as (l1 & l2 & -> & H1 & H2).
+      destruct (enum e1) as [la|]; [|discriminate E]. destruct (enum e2) as [lb|]; [|discriminate E].
+      inversion E; subst ls. apply in_flat_map. exists l1. split; [apply IHe1; auto|].
+      apply in_map. apply IHe2; auto.
+    - (* Choice *)
+      destruct (enum e1) as [la|]; [|discriminate E]. destruct (enum e2) as [lb|]; [|discriminate E].
+      inversion E; subst ls. apply in_or_app. destruct H as [H|H]; [left; apply IHe1|right; apply IHe2]; auto.
+    - (* Opt *)
+      destruct (enum e) as [lx|]; [|discriminate E]. inversion E; subst ls.
+      destruct H as [->|H]; [left; reflexivity|right; apply IHe; auto].
+    - (* Rep *)
+      destruct (enum e) as [lx|]; [|discriminate E].
+      destruct (forallb is_nil lx) eqn:Hn; [|discriminate E]. inversion E; subst ls. left. symmetry.
+      apply (star_all_nil (tops e)); [|exact H]. intros x Hx.
+      pose proof (IHe x lx Hx eq_refl) as Hin. rewrite forallb_forall in Hn. specialize (Hn x Hin).
+      destruct x; [reflexivity|discriminate Hn].
+    - apply IHe; assumption.
+    - apply IHe; assumption.
+  Qed.
+
+  Lemma tops_enum_nil : forall e l ls, tops e l -> enum e = Some ls -> forallb is_nil ls = true -> l = [].
+  Proof.
+    intros e l ls H E Hn. pose proof (tops_enum e l ls H E) as Hin. rewrite forallb_forall in Hn.
+    specialize (Hn l Hin). destruct l; [reflexivity|discriminate Hn].
+  Qed.
+
+  (* every top-level name comes from a rule reference of the expression *)
+  Fixpoint names (e : expr R) : list R :=
+    match e with
+    | Ident r => if Q r then [] else if silentb r then Snames r else [r]
+    | Seq a b | Choice a b => names a ++ names b
+    | Opt x | Rep x | Push x | RestoreOnErr x => names x
+    | _ => []
+    end.
+  Lemma tops_names : forall e l, tops e l -> Forall (fun r => In r (names e)) l.
+  Proof.
+    induction e as [x|x|lo hi|r|b|x IHx|x IHx|e1 IHe1 e2 IHe2|e1 IHe1 e2 IHe2|e IHe|e IHe|ss|e IHe|e IHe]; intros l H; cbn [PegShape.tops names] in *; try (subst l; constructor).
+    - destruct (Q r); [subst l; constructor|]. destruct (silentb r).
+      + unfold S_of, Snames in *. destruct (Senum r) as [ls|].
+        * apply Forall_forall. intros x Hx. apply in_concat. exists l. auto.
+        * apply Forall_forall. intros x _. apply all_rules_all.
+      + subst l. constructor; [left; reflexivity|constructor].
+    - destruct H as (l1 & l2 & -> & H1 & H2). apply Forall_app. split.
+      + eapply Forall_impl; [|apply IHe1; exact H1]. intros x Hx. apply in_or_app. left. exact Hx.
+      + eapply Forall_impl; [|apply IHe2; exact H2]. intros x Hx. apply in_or_app. right. exact Hx.
+    - destruct H as [H|H].
+      + eapply Forall_impl; [|apply IHe1; exact H]. intros x Hx. apply in_or_app. left. exact Hx.
+      + eapply Forall_impl; [|apply IHe2; exact H]. intros x Hx. apply in_or_app. right. exact Hx.
+    - destruct H as [->|H]; [constructor|apply IHe; exact H].
+    - destruct H as (ls & -> & F). induction F as [|x ls Hx _ IH]; [constructor|].
+      simpl. apply Forall_app. split; [apply IHe; exact Hx|exact IH].
+    - apply IHe; exact H.
+    - apply IHe; exact H.
+  Qed.
+End TopsEnum.
+
+(* ================================================================== Part 3c: gen/Grammar.v — inner pairs *)
+Require Import Blots.proofs.PegCommentsCompose.
+
+Definition blots_Senum (r : grule) : option (list (list grule)) :=
+  match r with
+  | PG_spreadable_expression => Some [[PG_spread_expression]; [PG_expression]]
+  | _ => None
+  end.
+Notation BQ := in_newline_quiet.
+Notation BS := (S_of grule blots_Senum).
+Notation btops := (tops grule blots_grammar BQ BS).
+Notation benum := (enum grule blots_grammar BQ blots_Senum).
+Notation bnames := (names grule blots_grammar BQ blots_Senum all_grules).
+
+Lemma all_grules_all : forall r : grule, In r all_grules.
+Proof. intro r. destruct r; vm_compute; tauto. Qed.
+
+Lemma BQ_silent : forall r, BQ r = true -> rd_mod (g_def blots_grammar r) = MSilent.
+Proof. intros r. destruct r; vm_compute; intro H; try discriminate H; reflexivity. Qed.
+Lemma BQ_closed : forall r, BQ r = true -> forallb BQ (idents grule (rd_body (g_def blots_grammar r))) = true.
+Proof. intros r. destruct r; vm_compute; intro H; try discriminate H; reflexivity. Qed.
+Lemma BQ_ws : forall w, g_ws blots_grammar = Some w -> BQ w = true.
+Proof. intros w H. vm_compute in H. inversion H. reflexivity. Qed.
+Lemma BQ_comment : forall c, g_comment blots_grammar = Some c -> BQ c = true.
+Proof. intros c H. vm_compute in H. discriminate H. Qed.
+Lemma BQ_trivia : forall r, silentb grule blots_grammar r = true -> rd_trivia (g_def blots_grammar r) = true -> BQ r = true.
+Proof. intros r. destruct r; vm_compute; intros H1 H2; try discriminate H1; try discriminate H2; reflexivity. Qed.
+
+Lemma BS_sound : forall r, silentb grule blots_grammar r = true -> BQ r = false ->
+  forall l, btops (rd_body (g_def blots_grammar r)) l -> BS r l.
+Proof.
+  intros r _ _ l H. unfold S_of. destruct (blots_Senum r) as [ls|] eqn:E; [|exact I].
+  destruct r; try discriminate E. inversion E; subst ls.
+  refine (tops_enum grule blots_grammar BQ blots_Senum _ l _ H _). vm_compute. reflexivity.
+Qed.
+
+Definition blots_run_tops := run_tops grule blots_grammar BQ BQ_silent BQ_closed BQ_ws BQ_comment BQ_trivia BS BS_sound.
+
+(* the rule names of the inner pairs, per rule *)
+Definition kids_spec (r : grule) (l : list grule) : Prop :=
+  match r with
+  | PG_do_block =>
+      exists pre, l = pre ++ [PG_return_statement] /\ Forall (fun x => x = PG_comment \/ x = PG_do_statement) pre
+  | PG_return_statement => l = [PG_expression]
+  | PG_do_statement =>
+      In l [[PG_expression]; [PG_expression; PG_comment]; [PG_comment]; [PG_comment; PG_comment]]
+  | PG_list_item =>
+      In l [[PG_spread_expression]; [PG_spread_expression; PG_eol_comment]; [PG_expression]; [PG_expression; PG_eol_comment]]
+  | PG_record_item =>
+      In l [[PG_record_pair]; [PG_record_pair; PG_eol_comment]; [PG_record_shorthand];
+            [PG_record_shorthand; PG_eol_comment]; [PG_spread_expression]; [PG_spread_expression; PG_eol_comment]]
+  | PG_statement =>
+      In l [[PG_output_declaration]; [PG_output_declaration; PG_comment]; [PG_expression]; [PG_expression; PG_comment];
+            [PG_comment]; [PG_comment; PG_comment]]
+  | _ => True
+  end.
+Definition C_kids (r : grule) (txt : string) (kids : list (tree grule)) : Prop := kids_spec r (map trule kids).
+
+Lemma emits_not_atomic : forall a, emits a false = true -> a <> Atomic.
+Proof. intros a H E. subst a. discriminate H. Qed.
+
+Lemma do_block_tops : forall l, btops (rd_body (grule_def PG_do_block)) l -> kids_spec PG_do_block l.
+Proof.
+  intros l H. cbn [grule_def rd_body] in H.
+  destruct H as (l0 & l1 & -> & H0 & H). cbn [PegShape.tops] in H0. subst l0.
+  destruct H as (lw & l2 & -> & Hw & H).
+  pose proof (tops_enum_nil grule blots_grammar BQ blots_Senum _ _ _ Hw eq_refl eq_refl) as Ew.
+  subst lw. clear Hw.
+  destruct H as (l3 & l4 & -> & H3 & H). cbn [PegShape.tops] in H3. subst l3.
+  destruct H as (r1 & l5 & -> & H1 & H).
+  destruct H as (r2 & l6 & -> & H2 & H).
+  destruct H as (r3 & l7 & -> & H3 & H).
+  destruct H as (rt & l8 & -> & Ht & H).
+  destruct H as (lw2 & l9 & -> & Hw2 & H9). cbn [PegShape.tops] in H9. subst l9.
+  pose proof (tops_enum_nil grule blots_grammar BQ blots_Senum _ _ _ Hw2 eq_refl eq_refl) as Ew2.
+  subst lw2. clear Hw2.
+  assert (Ert : rt = [PG_return_statement]) by exact Ht. subst rt.
+  apply (tops_names grule blots_grammar BQ blots_Senum all_grules all_grules_all) in H1, H2, H3.
+  exists (r1 ++ r2 ++ r3). split; [cbn [app]; rewrite ?app_nil_r, <- ?app_assoc; reflexivity|].
+  assert (Hn : forall e l', Forall (fun r => In r (bnames e)) l' ->
+                 forallb (fun x => orb (grule_eqb x PG_comment) (grule_eqb x PG_do_statement)) (bnames e) = true ->
+                 Forall (fun x => x = PG_comment \/ x = PG_do_statement) l').
+  { intros e l' F Hb. eapply Forall_impl; [|exact F]. intros x Hx. rewrite forallb_forall in Hb.
+    specialize (Hb x Hx). destruct x; vm_compute in Hb; try discriminate Hb; auto. }
+  rewrite !Forall_app. repeat split; (eapply Hn; [eassumption|vm_compute; reflexivity]).
+Qed.
+
+Lemma blots_kids_body_gives : forall text f, body_gives grule blots_grammar text C_kids (run blots_grammar f).
+Proof.
+  intros text f r a s s1 Hns Hem Ht Ho H Hf. unfold C_kids.
+  assert (Hgen : r_body_atom grule (g_def blots_grammar r) a <> Atomic ->
+                 btops (rd_body (g_def blots_grammar r)) (map trule (rev (out s1)))).
+  { intro Ha. pose proof (blots_run_tops f (r_mode grule (g_def blots_grammar r)) _ (rd_body (g_def blots_grammar r)) Ha s) as Hr.
+    rewrite H in Hr. destruct Hr as (new & O & Hr). rewrite Ho, app_nil_r in O. rewrite O. exact Hr. }
+  destruct r; try exact I; cbn [kids_spec].
+  - (* list_item *)
+    refine (tops_enum grule blots_grammar BQ blots_Senum _ _ _ (Hgen _) _); [|vm_compute; reflexivity].
+    apply emits_not_atomic. exact Hem.
+  - (* record_item *)
+    refine (tops_enum grule blots_grammar BQ blots_Senum _ _ _ (Hgen _) _); [|vm_compute; reflexivity].
+    apply emits_not_atomic. exact Hem.
+  - (* do_statement *)
+    refine (tops_enum grule blots_grammar BQ blots_Senum _ _ _ (Hgen _) _); [|vm_compute; reflexivity].
+    apply emits_not_atomic. exact Hem.
+  - (* return_statement *)
+    assert (E : In (map trule (rev (out s1))) [[PG_expression]]).
+    { refine (tops_enum grule blots_grammar BQ blots_Senum _ _ _ (Hgen _) _); [discriminate|vm_compute; reflexivity]. }
+    destruct E as [<-|[]]. reflexivity.
+  - (* do_block *)
+    apply do_block_tops. apply Hgen. discriminate.
+  - (* statement *)
+    refine (tops_enum grule blots_grammar BQ blots_Senum _ _ _ (Hgen _) _); [|vm_compute; reflexivity].
+    apply emits_not_atomic. exact Hem.
+Qed.
+
+(* SHAPE, inner pairs: for EVERY text the interpreter accepts, every node of every tree satisfies kids_spec *)
+Theorem shape_kids : forall fuel text s',
+  Peg.parse blots_grammar fuel PG_input text = Peg.Ok s' ->
+  forest_all grule text C_kids (rev (out s')).
+Proof.
+  intros fuel text s' H. unfold forest_all. apply Forall_rev.
+  exact (parse_nodes grule blots_grammar text C_kids (blots_kids_body_gives text) fuel PG_input s' H).
+Qed.
